@@ -2,6 +2,7 @@ package props
 
 import (
 	"fmt"
+	"hash"
 	"math/bits"
 	"runtime"
 	"sort"
@@ -10,12 +11,26 @@ import (
 	"github.com/ipfs/go-cid"
 	"github.com/ipfs/go-unixfsnode/data/builder"
 	"github.com/multiformats/go-multihash"
+	"github.com/spaolacci/murmur3"
 
 	"verifharness/gen"
 	"verifharness/mon"
 	"verifharness/oracle"
 	"verifharness/store"
 )
+
+// legacyMurmur is the 32-bit murmur3 that old go-multihash versions had under code 0x22.
+type legacyMurmur struct{ hash.Hash32 }
+
+func (legacyMurmur) BlockSize() int { return 1 }
+func (legacyMurmur) Size() int      { return 4 }
+
+// stdMurmur64 is what go-multihash registers under MURMUR3X64_64 (restored after the case).
+type stdMurmur64 struct{ hash.Hash64 }
+
+func (stdMurmur64) BlockSize() int             { return 1 }
+func (stdMurmur64) Size() int                  { return 8 }
+func (x stdMurmur64) Sum(digest []byte) []byte { return x.Hash64.Sum(digest) }
 
 func TestC08(t *testing.T) {
 	r := mon.Start(t, "C08")
@@ -94,6 +109,44 @@ func TestC08(t *testing.T) {
 			}
 			c.Sig(fmt.Sprintf("cmp|f%d|depth%d|%s|%s", d.Fanout, depth+1, d.Family, sizeClass(len(names))), len(names) >= 2)
 			c.Sample(map[string]any{"builder_root": root.String(), "reference_root": rroot.String(), "size": size, "entries": len(names), "depth": depth + 1})
+		})
+	}
+	// (1b) a process in which the multihash registry holds another hasher under the murmur3-x64-64 code
+	// (the registry is process-global and "last Register wins"): the directory layout is defined by
+	// murmur3-x64-64 itself, as the declared hash type says, so nothing changes
+	for _, f := range []int{16, 256} {
+		f := f
+		r.Case(fmt.Sprintf("registry-override/f%d", f), map[string]any{"fanout": f, "entries": 300}, func(c *mon.Case) {
+			multihash.Register(multihash.MURMUR3X64_64, func() hash.Hash { return legacyMurmur{murmur3.New32()} })
+			defer multihash.Register(multihash.MURMUR3X64_64, func() hash.Hash { return stdMurmur64{murmur3.New64()} })
+			names := namesFor(c, dirCase{Family: "ascii", N: 300})
+			st, ref := store.New(), store.New()
+			entries, model, sizes := childEntries(st, names)
+			for _, cc := range model {
+				if b, ok := st.Get(cc); ok {
+					ref.PutBlock(1, cid.Raw, b)
+				}
+			}
+			l, size, err := builder.BuildUnixFSShardedDirectory(f, multihash.MURMUR3X64_64, entries, st.LinkSystem(false))
+			rs, rerr := oracle.NewRefShard(ref, f)
+			if rerr == nil {
+				for _, n := range names {
+					if rerr = rs.Set(n, model[n], sizes[n]); rerr != nil {
+						break
+					}
+				}
+			}
+			if rerr != nil {
+				c.Harness("reference: %v", rerr)
+				return
+			}
+			rroot, rsize, rerr := rs.Node()
+			c.Count("cid_comparisons", 1)
+			c.Count("builds_under_overridden_registry", 1)
+			if err != nil || rerr != nil || !linkCid(l).Equals(rroot) || size != rsize {
+				c.Violation("C08|root-differs", "fanout %d, 300 names, with another hasher registered under the murmur3-x64-64 code: builder (%v, %d, %v), reference (%v, %d, %v)", f, l, size, err, rroot, rsize, rerr)
+			}
+			c.Sig(fmt.Sprintf("registry-override|f%d", f), true)
 		})
 	}
 	// (2) insert/remove histories on the reference HAMT, snapshots read back
